@@ -139,6 +139,8 @@ def harness(where_kind):
         if where_kind == "mask":
             where = SRef("ndarray", z3.Int("where"))
             ctx.assume(z3.And(1 <= where.ref, where.ref <= top0))
+            # a mask is boolean: pointwise 0 or 1 (so that "g where the mask holds, else 0" and "g times the mask" are the same number)
+            ctx.assume(z3.Or(ctx.heap[("ndarray", "val")][where.ref] == 0, ctx.heap[("ndarray", "val")][where.ref] == 1))
         else:
             where = True
         vt = lambda x: z3.And(1 <= x, x <= top0)  # noqa  (a tensor reference that exists on entry)
